@@ -19,6 +19,10 @@ counter does not wrap: fewer than `2^64 − v0` calls).  The last section shows 
 steps of the whole system; `startAt` / `doneAt` are its values at a call's invocation / return
 (`C11_clock_ticks`, `C11_start_tick`, `C11_done_tick`), and `C11_returned_before_invoked` restates the
 monotonicity clause without any clock.
+
+`C11_history_with_rollback_strict` is the statement over whole negotiation histories on one PeerConnection:
+CreateOffer / CreateAnswer interleaved with SetLocalDescription / SetRemoteDescription of every type
+(rollback included) and text (older descriptions included), on the signaling model of `Model/Signaling.lean`.
 -/
 namespace WebrtcVerif.C11
 open WebrtcVerif.Origin
@@ -186,6 +190,63 @@ theorem C11_sequential_strict (hist : List Api) (hy : Hyp (allFresh hist)) :
   obtain ⟨outs, h1, h2, _, h4⟩ := runHistory_spec (allFresh hist).length hist (0, 0)
     (fun p hp => hy p hp) (Nat.le_refl _) (Or.inl rfl)
   exact ⟨outs, h1, h4, h2⟩
+
+/-! ## histories with SetLocalDescription / SetRemoteDescription in between: rollback, re-application -/
+
+/-- `setDescription` — every type, rollback included, accepted or rejected — does not touch the origin:
+    the cells and the list of handed-out descriptions are the same before and after SetLocalDescription,
+    SetRemoteDescription and Close (the code as it is: only CreateOffer / CreateAnswer call updateSDPOrigin). -/
+theorem C11_setDescription_leaves_origin (s s' : PcSt) (a : PcAct) (h : pcStep s a = some s')
+    (hna : a.fresh = [] ∧ ∀ ap, a ≠ .createOffer ap ∧ a ≠ .createAnswer ap) :
+    s'.cells = s.cells ∧ s'.created = s.created := by
+  cases a with
+  | createOffer ap => exact absurd rfl (hna.2 ap).1
+  | createAnswer ap => exact absurd rfl (hna.2 ap).2
+  | setLocal d => simp only [pcStep] at h; cases h; exact ⟨rfl, rfl⟩
+  | setRemote d => simp only [pcStep] at h; cases h; exact ⟨rfl, rfl⟩
+  | close => simp only [pcStep] at h; cases h; exact ⟨rfl, rfl⟩
+
+/-- Strict increase and fixed id over histories WITH rollback and re-application.  For every history on a
+    new PeerConnection made of CreateOffer / CreateAnswer calls (each generating any number of descriptions,
+    gated by the real guards: closed, no remote description, wrong signaling state) and, in between, any
+    SetLocalDescription / SetRemoteDescription calls — any type (offer, pranswer, answer, ROLLBACK), any text
+    (the last created description, an OLDER one, a foreign one), in any signaling state, accepted or rejected
+    exactly as `checkNextSignalingState` / `setDescription` decide — and Close: no call hangs, every
+    description handed out carries the same session id, and each one's version is strictly greater than the
+    version of every description handed out before it, whatever was applied or rolled back in between. -/
+theorem C11_history_with_rollback_strict (acts : List PcAct) (hy : Hyp (pcFresh acts)) :
+    ∃ s, pcRun {} acts = some s ∧
+      (∀ o ∈ s.created, ∀ o' ∈ s.created, o.1 = o'.1) ∧
+      s.created.Pairwise (fun a b => a.2.toNat < b.2.toNat) := by
+  obtain ⟨s, h1, h2, h3⟩ := pcRun_spec (pcFresh acts).length acts {} (fun p hp => hy p hp) (Nat.le_refl _)
+    (Or.inl rfl) ⟨List.Pairwise.nil, fun o ho => by cases ho⟩
+  refine ⟨s, h1, ?_, h2⟩
+  intro o ho o' ho'
+  rw [(h3 o ho).2.1, (h3 o' ho').2.1]
+
+-- non-vacuity: the history of the seeded change C11-3 — offer, offer, SetLocalDescription(second offer),
+-- SetLocalDescription(rollback) (accepted: have-local-offer → stable), offer, offer — and an attempt to apply
+-- the OLDER offer 0 (rejected: not the last offer), a remote offer, an answer, a remote rollback (accepted:
+-- have-remote-offer → stable), a local rollback in stable (rejected), an answer in stable (guard fails).
+example : (pcRun {}
+    [.createOffer ⟨[(7, 5)], true⟩, .createOffer ⟨[(8, 5)], true⟩,
+     .setLocal { ty := .offer, txt := .made 0 0 },          -- older offer: rejected, stays stable
+     .setLocal { ty := .offer, txt := .made 1 0 },          -- → have-local-offer
+     .setLocal { ty := .rollback, txt := .empty },          -- → stable
+     .createOffer ⟨[(9, 6)], true⟩, .createOffer ⟨[(10, 6), (11, 6)], true⟩,
+     .setRemote { ty := .offer, txt := .garbage },          -- → have-remote-offer
+     .createAnswer ⟨[(12, 7)], true⟩,
+     .setRemote { ty := .rollback, txt := .empty },         -- → stable
+     .setLocal { ty := .rollback, txt := .empty },          -- rejected in stable
+     .createAnswer ⟨[(13, 7)], true⟩]).map (fun s => (s.neg.sig, s.created)) =
+    some (.stable, [(7, 5), (7, 6), (7, 7), (7, 9), (7, 10)]) := by decide
+
+example : ((pcRun {}
+    [.createOffer ⟨[(7, 5)], true⟩, .setLocal { ty := .offer, txt := .made 0 0 }]).map (·.neg.sig),
+   (pcRun {}
+    [.createOffer ⟨[(7, 5)], true⟩, .setLocal { ty := .offer, txt := .made 0 0 },
+     .setLocal { ty := .rollback, txt := .empty }]).map (·.neg.sig)) =
+    (some .haveLocalOffer, some .stable) := by decide
 
 /-! ## non-vacuity, and why each hypothesis is there -/
 
